@@ -1,0 +1,16 @@
+//go:build verif
+
+package http2
+
+// C08/C11: a new server connection starts with the RFC default connection-level windows: the send
+// window (sc.flow) is opened by exactly 65535 and the receive window (sc.inflow) starts at 65535,
+// whatever buffer sizes the server is configured with (those are announced later by SETTINGS and
+// a WINDOW_UPDATE). Partial contract: everything else in serveConn is abstracted.
+//
+//@ func (*Server).serveConn(s, c, opts, newf)
+//@   abstract
+//@   havoccalls
+//@   partial nopanic, pre
+//@   assert at call add: $n == 65535 && $n == initialWindowSize
+//@   assert at call init: $n == 65535 && $n == initialWindowSize
+//@   noframe
